@@ -260,7 +260,7 @@ def check_checksums(block, acc):
 
 def check_checksum_long(acc):
     # long inputs (sums wrap many times) and every single-byte substitution of two frames
-    for n in (255, 256, 257, 1000, 65535):
+    for n in (255, 256, 257, 1000, 65535, 65536, 65537, 65539, 131072):
         for fill in (0xFF, 0x01, 0x80):
             d = bytes([fill]) * n
             acc.evaluations += 1
